@@ -2,6 +2,7 @@ package mon
 
 import (
 	"fmt"
+	"strconv"
 	"strings"
 
 	"github.com/cloudspannerecosystem/memefish/ast"
@@ -491,6 +492,14 @@ func CheckC07Negative(c *Ctx, text string) {
 // ReplayC07 re-derives the expectation from the text: the text is one of the two renderings of some tree; for a
 // replay the stored input is "text\x00shape".
 func ReplayC07(c *Ctx, entry, input string) {
+	if entry == "chain" {
+		if i := strings.LastIndexByte(input, ' '); i > 0 {
+			if n, err := strconv.Atoi(input[i+1:]); err == nil && n > 0 && n <= 200000 {
+				CheckC07Chain(c, input[:i], n)
+			}
+		}
+		return
+	}
 	parts := strings.SplitN(input, "\x00", 2)
 	if len(parts) == 2 {
 		CheckC07(c, parts[0], parts[1])
@@ -556,6 +565,7 @@ func RunC07(c *Ctx) {
 		toks, _ := renderTree(t, false)
 		c.Distinct(strings.Join(toks, " "))
 	}
+	c07LongChains(c)
 	// negative clause: chains of two comparison-family operators
 	if c.Shard == 0 {
 		tails := []string{"= c", "!= c", "<> c", "< c", "<= c", "> c", ">= c", "LIKE c", "NOT LIKE c", "IN (c)", "NOT IN (c)", "IN UNNEST(c)", "BETWEEN c AND d", "NOT BETWEEN c AND d", "IS NULL", "IS NOT NULL", "IS TRUE", "IS NOT FALSE"}
